@@ -90,6 +90,16 @@ func WithRetrieveOptions(ro *storage.RetrieveOptions) ReaderOption {
 // another reader.
 func (o *Options) copy() *Options {
 	no := *o
+	// The nested option structs are copied too, so that editing the options
+	// of one reader in place never reaches the defaults or another reader.
+	if o.UnserializeOptions != nil {
+		uo := *o.UnserializeOptions
+		no.UnserializeOptions = &uo
+	}
+	if o.RetrieveOptions != nil {
+		ro := *o.RetrieveOptions
+		no.RetrieveOptions = &ro
+	}
 	no.formatOptions = map[string]interface{}{}
 	for k, v := range o.formatOptions {
 		no.formatOptions[k] = v
